@@ -18,6 +18,9 @@
 #define CS_P ((resp0_pipe *) g_sv.idm_val)
 #define CS_BL OLD(CS_C->btrace_len)
 #define CS_HAVE_PIPE (g_sv.idm_present)
+/* "refused": nni_aio_start was reached and said no (aio stopped, or a
+ * non-blocking call): the operation is over, nothing else may have happened */
+#define CS_REFUSED (g_start_calls > OLD(g_start_calls) && !g_aio_start_ok)
 static void resp0_ctx_send(void *arg, nni_aio *aio)
 __CPROVER_requires(__CPROVER_is_fresh(arg, sizeof(struct resp0_ctx)) && __CPROVER_is_fresh(CS_S, sizeof(struct resp0_sock)) && VP_NO_LOCK_HELD)
 __CPROVER_requires(__CPROVER_is_fresh(aio, sizeof(nni_aio)) && MSG_PRE(CS_M) && CS_M->m_refcnt.v == 1 && CH_GHOST_PRE(&CS_M->m_body))
@@ -33,23 +36,30 @@ __CPROVER_requires(g_pollr_addr == &CS_S->readable && g_pollw_addr == &CS_S->wri
 __CPROVER_assigns(aio->a_msg, aio->a_result, aio->a_count, CS_C->pipe_id, CS_C->btrace_len, CS_C->saio, CS_C->spipe, VP_PROTO_GHOST_LIST, VP_SV_GHOST_LIST, VP_SYNC_GHOSTS, g_free_calls)
 __CPROVER_assigns(*CS_M, CS_P->busy, CS_P->aio_send.a_msg)
 __CPROVER_frees(CS_M, CS_M->m_body.ch_buf)
-__CPROVER_ensures(VP_NO_LOCK_HELD && VP_AIOQS_OK)
-/* (a) no survey pending: NNG_ESTATE at once, message stays with the caller, nothing sent */
-__CPROVER_ensures(CS_BL == 0 ==> (g_fin_calls == OLD(g_fin_calls) + 1 && g_fin_last == aio && g_fin_last_rv == NNG_ESTATE && aio->a_msg == OLD(CS_M) && !__CPROVER_was_freed(OLD(CS_M)) && g_pipe_send_calls == OLD(g_pipe_send_calls) && g_start_calls == OLD(g_start_calls) && g_qa.n == OLD(g_qa.n) && CS_C->saio == NULL))
+__CPROVER_ensures(VP_NO_LOCK_HELD && VP_AIOQS_OK && g_start_calls <= OLD(g_start_calls) + 1)
+/* ---- C15, the non-blocking rule: nni_aio_start is reached ONLY when the response has to wait for a busy pipe.
+ * (KNOWN FINDING on the current tree: resp0_ctx_send starts the aio up front, so a non-blocking send fails with
+ *  NNG_EAGAIN even when the response could go out at once; pinned by respond_test.c test_resp_ctx_send_nonblock) */
+__CPROVER_ensures(CS_BL == 0 ==> g_start_calls == OLD(g_start_calls))
+__CPROVER_ensures((CS_BL > 0 && (!CS_HAVE_PIPE || !OLD(CS_P->busy))) ==> g_start_calls == OLD(g_start_calls))
+/* ---- refused start: the message stays with the caller, nothing sent/queued/completed here, the survey stays answerable */
+__CPROVER_ensures(CS_REFUSED ==> (aio->a_msg == OLD(CS_M) && !__CPROVER_was_freed(OLD(CS_M)) && g_fin_calls == OLD(g_fin_calls) && g_pipe_send_calls == OLD(g_pipe_send_calls) && g_qa.n == OLD(g_qa.n) && CS_C->saio == NULL && CS_C->btrace_len == CS_BL && CS_C->pipe_id == OLD(CS_C->pipe_id)))
+/* ---- C07 state machine (when not refused) ---- */
+/* (a) no survey pending: NNG_ESTATE, message stays with the caller, nothing sent */
+__CPROVER_ensures((CS_BL == 0 && !CS_REFUSED) ==> (g_fin_calls == OLD(g_fin_calls) + 1 && g_fin_last == aio && g_fin_last_rv == NNG_ESTATE && aio->a_msg == OLD(CS_M) && !__CPROVER_was_freed(OLD(CS_M)) && g_pipe_send_calls == OLD(g_pipe_send_calls) && g_qa.n == OLD(g_qa.n) && CS_C->saio == NULL))
 /* (b) surveyor's pipe idle: on the wire now, to exactly the captured pipe, header = exactly the captured backtrace; completes in the call */
-__CPROVER_ensures((CS_BL > 0 && CS_HAVE_PIPE && !OLD(CS_P->busy)) ==> (g_pipe_send_calls == OLD(g_pipe_send_calls) + 1 && g_pipe_send_pipe == CS_P->npipe && g_pipe_send_aio == &CS_P->aio_send && g_pipe_send_msg == OLD(CS_M) && CS_P->busy && !__CPROVER_was_freed(OLD(CS_M)) && OLD(CS_M)->m_header_len == CS_BL && g_fin_calls == OLD(g_fin_calls) + 1 && g_fin_last == aio && g_fin_last_rv == 0 && aio->a_msg == NULL && g_start_calls == OLD(g_start_calls) && g_qa.n == OLD(g_qa.n)))
+__CPROVER_ensures((CS_BL > 0 && !CS_REFUSED && CS_HAVE_PIPE && !OLD(CS_P->busy)) ==> (g_pipe_send_calls == OLD(g_pipe_send_calls) + 1 && g_pipe_send_pipe == CS_P->npipe && g_pipe_send_aio == &CS_P->aio_send && g_pipe_send_msg == OLD(CS_M) && CS_P->busy && !__CPROVER_was_freed(OLD(CS_M)) && OLD(CS_M)->m_header_len == CS_BL && g_fin_calls == OLD(g_fin_calls) + 1 && g_fin_last == aio && g_fin_last_rv == 0 && aio->a_msg == NULL && g_qa.n == OLD(g_qa.n)))
 /* (c) the surveyor is gone: the response is discarded, reported as sent */
-__CPROVER_ensures((CS_BL > 0 && !CS_HAVE_PIPE) ==> (__CPROVER_was_freed(OLD(CS_M)) && g_pipe_send_calls == OLD(g_pipe_send_calls) && g_fin_calls == OLD(g_fin_calls) + 1 && g_fin_last == aio && g_fin_last_rv == 0 && aio->a_msg == NULL && g_start_calls == OLD(g_start_calls)))
-/* (d) pipe busy: must wait -- started exactly once; refused => still the caller's message, nothing queued, the survey stays answerable */
+__CPROVER_ensures((CS_BL > 0 && !CS_REFUSED && !CS_HAVE_PIPE) ==> (__CPROVER_was_freed(OLD(CS_M)) && g_pipe_send_calls == OLD(g_pipe_send_calls) && g_fin_calls == OLD(g_fin_calls) + 1 && g_fin_last == aio && g_fin_last_rv == 0 && aio->a_msg == NULL))
+/* (d) pipe busy: must wait -- started exactly once, queued behind the pipe with header = backtrace */
 __CPROVER_ensures((CS_BL > 0 && CS_HAVE_PIPE && OLD(CS_P->busy)) ==> (g_start_calls == OLD(g_start_calls) + 1 && g_start_last == aio && g_pipe_send_calls == OLD(g_pipe_send_calls) && g_fin_calls == OLD(g_fin_calls) && aio->a_msg == OLD(CS_M) && !__CPROVER_was_freed(OLD(CS_M))))
-__CPROVER_ensures((CS_BL > 0 && CS_HAVE_PIPE && OLD(CS_P->busy) && !g_aio_start_ok) ==> (g_qa.n == OLD(g_qa.n) && CS_C->saio == NULL && CS_C->btrace_len == CS_BL && CS_C->pipe_id == OLD(CS_C->pipe_id)))
 __CPROVER_ensures((CS_BL > 0 && CS_HAVE_PIPE && OLD(CS_P->busy) && g_aio_start_ok) ==> (g_qa.n == OLD(g_qa.n) + 1 && g_last_app == (nni_aio *) arg && CS_C->saio == aio && CS_C->spipe == CS_P && OLD(CS_M)->m_header_len == CS_BL))
-/* the capture is consumed whenever the response was accepted (second send => (a)) */
-__CPROVER_ensures((CS_BL > 0 && !(CS_HAVE_PIPE && OLD(CS_P->busy) && !g_aio_start_ok)) ==> (CS_C->btrace_len == 0 && CS_C->pipe_id == 0))
-/* header = exactly the captured backtrace, body unchanged, whenever the message is kept */
-__CPROVER_ensures((CS_BL > 0 && CS_HAVE_PIPE && (!OLD(CS_P->busy) || g_aio_start_ok) && g_hk < CS_BL) ==> HDR(OLD(CS_M))[g_hk] == g_hb)
-__CPROVER_ensures((CS_BL > 0 && CS_HAVE_PIPE && (!OLD(CS_P->busy) || g_aio_start_ok)) ==> OLD(CS_M)->m_body.ch_len == OLD(CS_M->m_body.ch_len))
-__CPROVER_ensures((CS_BL > 0 && CS_HAVE_PIPE && (!OLD(CS_P->busy) || g_aio_start_ok) && g_k < OLD(CS_M->m_body.ch_len)) ==> OLD(CS_M)->m_body.ch_ptr[g_k] == g_b)
+/* the capture is consumed whenever the response was accepted (a second send => (a)) */
+__CPROVER_ensures((CS_BL > 0 && !CS_REFUSED) ==> (CS_C->btrace_len == 0 && CS_C->pipe_id == 0))
+/* header = exactly the captured backtrace, body unchanged, whenever the message is kept by the library */
+__CPROVER_ensures((CS_BL > 0 && !CS_REFUSED && CS_HAVE_PIPE && g_hk < CS_BL) ==> HDR(OLD(CS_M))[g_hk] == g_hb)
+__CPROVER_ensures((CS_BL > 0 && !CS_REFUSED && CS_HAVE_PIPE) ==> OLD(CS_M)->m_body.ch_len == OLD(CS_M->m_body.ch_len))
+__CPROVER_ensures((CS_BL > 0 && !CS_REFUSED && CS_HAVE_PIPE && g_k < OLD(CS_M->m_body.ch_len)) ==> OLD(CS_M)->m_body.ch_ptr[g_k] == g_b)
 /* the pipe map is only read */
 __CPROVER_ensures(g_sv.idm_present == OLD(g_sv.idm_present) && g_sv.idm_set_calls == OLD(g_sv.idm_set_calls) && g_sv.idm_remove_calls == OLD(g_sv.idm_remove_calls))
 ;
@@ -144,7 +154,9 @@ __CPROVER_ensures(g_pipe_close_calls == OLD(g_pipe_close_calls) + 1 && g_pipe_cl
 static void resp0_pipe_recv_cb(void *arg)
 __CPROVER_requires(__CPROVER_is_fresh(arg, sizeof(struct resp0_pipe)) && __CPROVER_is_fresh(RC_S, sizeof(struct resp0_sock)) && RS_TTL_OK(RC_S) && VP_NO_LOCK_HELD)
 __CPROVER_requires(RC_P->aio_recv.a_result == 0 && SV_WIRE_MSG(RC_M) && CH_GHOST_PRE(&RC_M->m_body))
+#ifndef RC_NOCOUNT
 BT_COUNT_REQ(RC_M, g_n)
+#endif
 __CPROVER_requires(BT_BODY_GHOSTS(RC_M))
 /* queue A = contexts blocked in receive (head: a context of its own with a pending receive aio), queue B = receivable pipes */
 __CPROVER_requires(g_qa_addr == &RC_S->recvq && g_qb_addr == &RC_S->recvpipes && RS_LISTS_PRE(sizeof(struct resp0_ctx), sizeof(struct resp0_pipe)) && g_qb.n < 8)
@@ -156,6 +168,7 @@ __CPROVER_assigns(*RC_M; g_qa.n > 0: RC_CTX->raio, RC_CTX->btrace_len, RC_CTX->p
 __CPROVER_frees(RC_M, RC_M->m_body.ch_buf)
 __CPROVER_ensures(VP_NO_LOCK_HELD && VP_AIOQS_OK)
 __CPROVER_ensures(g_pipe_close_calls <= OLD(g_pipe_close_calls) + 1 && g_fin_calls <= OLD(g_fin_calls) + 1 && g_start_calls == OLD(g_start_calls))
+#ifndef RC_MIN
 /* malformed => disconnect, freed, never delivered */
 __CPROVER_ensures(BT_SHORT(g_n, RC_TTL, RC_LEN0) ==> (__CPROVER_was_freed(OLD(RC_M)) && RC_P->aio_recv.a_msg == NULL && g_pipe_close_calls == OLD(g_pipe_close_calls) + 1 && g_pipe_close_last == RC_P->npipe && g_fin_calls == OLD(g_fin_calls) && g_pipe_recv_calls == OLD(g_pipe_recv_calls) && g_qa.n == OLD(g_qa.n) && g_qb.n == OLD(g_qb.n)))
 /* too many hops => dropped, NOT disconnected, receive re-armed */
@@ -172,6 +185,7 @@ __CPROVER_ensures((RC_DELIV && g_k < 4 * (g_n + 1)) ==> RS_BT(RC_CTX0)[g_k] == g
 /* in both kept cases the body is the rest of the wire body, unchanged */
 __CPROVER_ensures((RC_HELD || RC_DELIV) ==> OLD(RC_M)->m_body.ch_len == RC_LEN0 - 4 * (g_n + 1))
 __CPROVER_ensures(((RC_HELD || RC_DELIV) && g_k >= 4 * (g_n + 1) && g_k < RC_LEN0) ==> OLD(RC_M)->m_body.ch_ptr[g_k - 4 * (g_n + 1)] == g_b)
+#endif
 ;
 #endif
 
@@ -184,7 +198,6 @@ __CPROVER_requires(__CPROVER_is_fresh(aio, sizeof(nni_aio)) && MSG_PRE(CS_M) && 
 __CPROVER_requires(SS_C->btrace_len <= RS_BTCAP && SS_C->saio == NULL)
 __CPROVER_requires(g_hk < SS_C->btrace_len ==> g_hb == RS_BT(SS_C)[g_hk])
 __CPROVER_requires(g_idm_addr == &SS_S->pipes && g_idm_key == (uint64_t) SS_C->pipe_id)
-/* the pipe object the tracked key would map to always exists (OLD() needs a valid pointer); membership is g_sv.idm_present */
 __CPROVER_requires(__CPROVER_is_fresh(g_sv.idm_val, sizeof(struct resp0_pipe)) && g_qa_addr == &CS_P->sendq)
 __CPROVER_requires((g_qa.n == 0 || __CPROVER_is_fresh(g_qa.head, sizeof(struct resp0_ctx))) && VP_AIOQS_OK && g_qa.n < 8 && VP_AIO_NOT_QUEUED((nni_aio *) SS_C))
 __CPROVER_requires(g_pollr_addr == &SS_S->readable && g_pollw_addr == &SS_S->writable)
@@ -192,12 +205,15 @@ __CPROVER_assigns(aio->a_msg, aio->a_result, aio->a_count, SS_C->pipe_id, SS_C->
 __CPROVER_assigns(*CS_M, CS_P->busy, CS_P->aio_send.a_msg)
 __CPROVER_frees(CS_M, CS_M->m_body.ch_buf)
 __CPROVER_ensures(VP_NO_LOCK_HELD && VP_AIOQS_OK)
+/* C15 non-blocking rule on the socket entry point (KNOWN FINDING on the current tree, see resp0_ctx_send) */
+__CPROVER_ensures((OLD(SS_C->btrace_len) == 0 || !CS_HAVE_PIPE || !OLD(CS_P->busy)) ==> g_start_calls == OLD(g_start_calls))
 /* same state machine as a context ... */
-__CPROVER_ensures(OLD(SS_C->btrace_len) == 0 ==> (g_fin_calls == OLD(g_fin_calls) + 1 && g_fin_last_rv == NNG_ESTATE && aio->a_msg == OLD(CS_M) && g_pipe_send_calls == OLD(g_pipe_send_calls) && g_start_calls == OLD(g_start_calls)))
-__CPROVER_ensures((OLD(SS_C->btrace_len) > 0 && CS_HAVE_PIPE && !OLD(CS_P->busy)) ==> (g_pipe_send_calls == OLD(g_pipe_send_calls) + 1 && g_pipe_send_pipe == CS_P->npipe && g_pipe_send_msg == OLD(CS_M) && OLD(CS_M)->m_header_len == OLD(SS_C->btrace_len) && g_fin_calls == OLD(g_fin_calls) + 1 && g_fin_last_rv == 0 && g_start_calls == OLD(g_start_calls) && SS_C->btrace_len == 0))
-__CPROVER_ensures((OLD(SS_C->btrace_len) > 0 && CS_HAVE_PIPE && !OLD(CS_P->busy) && g_hk < OLD(SS_C->btrace_len)) ==> HDR(OLD(CS_M))[g_hk] == g_hb)
-__CPROVER_ensures((OLD(SS_C->btrace_len) > 0 && !CS_HAVE_PIPE) ==> (__CPROVER_was_freed(OLD(CS_M)) && g_fin_calls == OLD(g_fin_calls) + 1 && g_fin_last_rv == 0 && g_start_calls == OLD(g_start_calls) && SS_C->btrace_len == 0))
+__CPROVER_ensures((OLD(SS_C->btrace_len) == 0 && !CS_REFUSED) ==> (g_fin_calls == OLD(g_fin_calls) + 1 && g_fin_last_rv == NNG_ESTATE && aio->a_msg == OLD(CS_M) && g_pipe_send_calls == OLD(g_pipe_send_calls)))
+__CPROVER_ensures((OLD(SS_C->btrace_len) > 0 && !CS_REFUSED && CS_HAVE_PIPE && !OLD(CS_P->busy)) ==> (g_pipe_send_calls == OLD(g_pipe_send_calls) + 1 && g_pipe_send_pipe == CS_P->npipe && g_pipe_send_msg == OLD(CS_M) && OLD(CS_M)->m_header_len == OLD(SS_C->btrace_len) && g_fin_calls == OLD(g_fin_calls) + 1 && g_fin_last_rv == 0 && SS_C->btrace_len == 0))
+__CPROVER_ensures((OLD(SS_C->btrace_len) > 0 && !CS_REFUSED && CS_HAVE_PIPE && !OLD(CS_P->busy) && g_hk < OLD(SS_C->btrace_len)) ==> HDR(OLD(CS_M))[g_hk] == g_hb)
+__CPROVER_ensures((OLD(SS_C->btrace_len) > 0 && !CS_REFUSED && !CS_HAVE_PIPE) ==> (__CPROVER_was_freed(OLD(CS_M)) && g_fin_calls == OLD(g_fin_calls) + 1 && g_fin_last_rv == 0 && SS_C->btrace_len == 0))
 __CPROVER_ensures((OLD(SS_C->btrace_len) > 0 && CS_HAVE_PIPE && OLD(CS_P->busy)) ==> (g_start_calls == OLD(g_start_calls) + 1 && g_fin_calls == OLD(g_fin_calls) && aio->a_msg == OLD(CS_M) && g_qa.n == OLD(g_qa.n) + (g_aio_start_ok ? 1 : 0)))
+__CPROVER_ensures(CS_REFUSED ==> (aio->a_msg == OLD(CS_M) && g_fin_calls == OLD(g_fin_calls) && g_pipe_send_calls == OLD(g_pipe_send_calls) && SS_C->btrace_len == OLD(SS_C->btrace_len)))
 /* ... and (C15) once a response was accepted the send descriptor is lowered: only one response per survey */
 __CPROVER_ensures((g_fin_calls > OLD(g_fin_calls) && g_fin_last_rv == 0) ==> !g_pollw)
 ;
